@@ -22,6 +22,41 @@ PLANS = {
     },
 }
 
+LOGIX_REAL = ["pycomm3.socket_.Socket", "pycomm3.CIPDriver", "pycomm3.LogixDriver", "all pycomm3.packets classes",
+              "pycomm3.cip data types / custom_types", "logging (real, in-memory sink for a fraction of runs)"]
+LOGIX_STUB = ["socket module (SimNet)", "os.urandom (seeded)", "time.time (virtual clock)",
+              "EtherNet/IP device, chassis, connection manager, Logix controller (reference models, no pycomm3 import)"]
+LOGIX_RULE = ("scenario = generated controller project (types, tags, memory image) + firmware/Micro800/Forward-Open policy + "
+              "peer choices (recv chunking, partial sends, fragment and page capacities, handle values) + call history "
+              "(open/read/write/get_tag_list/close with generated request lists); non-trivial = the property's oracle was "
+              "evaluated on at least one call; distinct = distinct abstract trace shapes (op kinds and outcomes, services "
+              "executed at the target, number of multi-service packets, request-count class, planted-invalid kinds)")
+
+
+def _logix(prop, level, qn, tn, directed=False, budget=(90, 900), extra_rule="", assumptions=()):
+    parts = []
+    if directed:
+        parts.append(("logix", "directed", None, None))
+    parts.append(("logix", "gen", qn, tn))
+    return {"level": level, "parts": parts, "budget_s": {"quick": budget[0], "thorough": budget[1]},
+            "rule": LOGIX_RULE + extra_rule, "real": LOGIX_REAL, "stub": LOGIX_STUB,
+            "assumptions": ["benign nondeterminism only (no transport faults): the quantifier of this property has no faults",
+                            "reference controller follows 1756-PM020 / CIP Vol 1; strict rules named in DESIGN 3.4"] + list(assumptions)}
+
+
+PLANS.update({
+    "C01": _logix("C01", "exploration", 1500, 30000),
+    "C02": _logix("C02", "exploration", 1500, 30000),
+    "C03": _logix("C03", "exploration", 1500, 30000, directed=True),
+    "C04": _logix("C04", "exploration", 600, 12000, directed=True, budget=(120, 1200),
+                  extra_rule="; directed set: every tag size in [cs-64, cs+64] and around 2cs (3cs thorough) x name length x "
+                             "read/write x alone/next to a small tag for cs in {500, 4000}"),
+    "C05": _logix("C05", "exploration", 1200, 25000),
+    "C09": _logix("C09", "exploration", 1500, 30000),
+    "C11": _logix("C11", "exploration", 1500, 30000),
+    "C17": _logix("C17", "exploration", 800, 16000, directed=True),
+})
+
 
 def plan_for(prop, tier):
     p = PLANS.get(prop)
